@@ -1,7 +1,8 @@
-\* Python source layouts for fix_whitespace, up to 3 items
+\* Python source layouts for fix_whitespace, up to 3 items over a reduced gap set (every gap is covered exhaustively up to 2 items by layouts.small)
 CONSTANTS
   Fns = {"fixws"}
   Alphabet = {"w3", "w9", "long", "sp", "sps", "tab", "nl", "blank", "li", "star", "plus", "num", "colon", "quote", "tquote", "bslash"}
+  MinLen = 0
   MaxLen = 2
   Widths = {10, 20, 40, 72}
   Indents = {0, 4, 8}
@@ -9,7 +10,7 @@ CONSTANTS
   RstWidths = {20, 40, 72}
   RstIndents = {0, 4, 12, 16}
   Kinds = {"stmt", "stmt_t", "und", "imp", "pass", "cmt", "deco", "def", "class", "if", "doc", "strb"}
-  Gaps = {"0", "1", "2", "3", "4", "2s", "3s"}
+  Gaps = {"0", "2", "3", "3s"}
   MaxItems = 3
   MaxLvl = 2
   Origins = {"message", "field", "enum", "value", "service", "method"}
